@@ -641,6 +641,44 @@ func (h *hist) genTxs() []*txRec {
 			}
 		}
 	}
+	if h.cfg.replays && h.rnd.Intn(5) == 0 {
+		// "send max": a sender without a node spends its balance down to EXACTLY zero (amount = balance - the fee the node will
+		// charge); its account stays - with its nonce - although it holds nothing
+		var cands []int
+		for _, k := range h.funded() {
+			if k >= 6 && pend[k] == 0 {
+				cands = append(cands, k)
+			}
+		}
+		if len(cands) > 0 {
+			from := h.pick(cands)
+			to := h.w.Addrs[1+h.rnd.Intn(5)]
+			bal := s.GetBalance(h.w.Addrs[from])
+			base, ep := h.nextNonce(from)
+			// (the funds check wants amount + MAXIMUM fee: the maximum fee is the fee itself)
+			amount := new(big.Int).Set(bal)
+			maxFee := sim.Dna(1, 1)
+			var tx *types.Transaction
+			for i := 0; i < 8; i++ {
+				tx = h.w.Tx(sim.TxSpec{From: from, To: &to, Type: types.SendTx, Amount: amount, MaxFee: maxFee, Nonce: base + 1, Epoch: ep})
+				f := h.ref.n.SizeFee(tx)
+				want := new(big.Int).Sub(bal, f)
+				if want.Sign() <= 0 || (want.Cmp(amount) == 0 && f.Cmp(maxFee) == 0) {
+					break
+				}
+				amount, maxFee = want, f
+			}
+			if amount.Sign() > 0 && new(big.Int).Add(amount, h.ref.n.SizeFee(tx)).Cmp(bal) == 0 && h.ref.n.SizeFee(tx).Cmp(tx.MaxFeeOrZero()) == 0 {
+				h.txSeq++
+				id := fmt.Sprintf("t%d", h.txSeq)
+				m := tr.M{"id": id, "type": int(types.SendTx), "from": fmt.Sprintf("k%d", from), "to": h.w.Name(to), "amount": sim.Limbs(tx.AmountOrZero()),
+					"tips": sim.Limbs(tx.TipsOrZero()), "maxfee": sim.Limbs(tx.MaxFeeOrZero()), "nonce": int(base + 1), "epoch": int(ep), "nadj": 0, "eadj": 0, "drain": true}
+				rec := &txRec{id: id, tx: tx, from: from, m: m}
+				h.recs[tx.Hash().Hex()] = rec
+				add(rec, true)
+			}
+		}
+	}
 	if h.cfg.contracts && (h.cfg.dawn || h.rnd.Intn(3) == 0) {
 		// an embedded contract deployment (2-of-2 multisig): a receipt with gas used and gas cost, coins moved into contract
 		// stake - every replica evaluates it again, some of them twice (validate, then insert)
